@@ -6,7 +6,7 @@ from props.common import gen_strategy, quiet_logging, Violations
 from worlds.full import FullWorld
 
 ID = 'C21'
-TIERS = {'quick': {'runs': 6000, 'budget_s': 55, 'wall_cap': 120, 'block': 60},
+TIERS = {'quick': {'runs': 18000, 'budget_s': 55, 'wall_cap': 120, 'block': 60},
          'thorough': {'runs': 600000, 'budget_s': 840, 'wall_cap': 200, 'block': 60}}
 SHRINK_LISTS = ['events', 'policies']
 COVERAGE_RULE = ('one run = 3-7 built-in policy instances (RoundRobin, DCAware with explicit/implicit local_dc and 0-2 hosts per remote '
